@@ -21,9 +21,15 @@ func init() { register("C05", runC05) }
 type rawResp struct {
 	status   int
 	wwwAuth  []string
+	cookies  []string // name=value of every Set-Cookie
 	upgraded bool
 	err      string
 }
+
+// rawKeepCookies: the client sends back, on every later request of whatever connection, the cookies
+// the gateway has set so far (as a browser-like or cookie-keeping client does); rawCookieJar holds them.
+var rawKeepCookies bool
+var rawCookieJar []string
 
 // rawExtraHdr is added to every request rawRequest writes (client-controlled headers such as
 // X-Forwarded-For must not change who gets in).
@@ -35,6 +41,9 @@ func rawRequest(c net.Conn, br *bufio.Reader, method, host string, auths []strin
 	fmt.Fprintf(&sb, "%s /remoteDesktopGateway/ HTTP/1.1\r\nHost: %s\r\n%s", method, host, rawExtraHdr)
 	for _, a := range auths {
 		fmt.Fprintf(&sb, "Authorization: %s\r\n", a)
+	}
+	if rawKeepCookies && len(rawCookieJar) > 0 {
+		fmt.Fprintf(&sb, "Cookie: %s\r\n", strings.Join(rawCookieJar, "; "))
 	}
 	if upgrade {
 		sb.WriteString("Connection: Upgrade\r\nUpgrade: websocket\r\nSec-WebSocket-Version: 13\r\nSec-WebSocket-Key: dGhlIHNhbXBsZSBub25jZQ==\r\nRdg-Connection-Id: {" + randHex(6) + "}\r\n")
@@ -76,6 +85,19 @@ func rawRequest(c net.Conn, br *bufio.Reader, method, host string, auths []strin
 			r.wwwAuth = append(r.wwwAuth, v)
 		case "content-length":
 			cl, _ = strconv.Atoi(v)
+		case "set-cookie":
+			nv := strings.TrimSpace(strings.SplitN(v, ";", 2)[0])
+			r.cookies = append(r.cookies, nv)
+			if rawKeepCookies {
+				name := strings.SplitN(nv, "=", 2)[0] + "="
+				kept := rawCookieJar[:0]
+				for _, c := range rawCookieJar {
+					if !strings.HasPrefix(c, name) {
+						kept = append(kept, c)
+					}
+				}
+				rawCookieJar = append(kept, nv)
+			}
 		}
 	}
 	if r.status == 101 {
@@ -460,7 +482,7 @@ func runC05(r *Run) {
 			// the property, directly: an exchange completed on one connection with the right password is the only way in
 			should := ntlmOn && sameConn && users[user] == pw && pw != ""
 			if resp2.upgraded != should && ntlmOn {
-				rep := fmt.Sprintf("mechanisms: %s; NTLM exchange (%s) as %q, password correct=%v, same connection=%v → upgraded=%v (status %d)\n", strings.Join(mechs, "+"), scheme, user, users[user] == pw, sameConn, resp2.upgraded, resp2.status)
+				rep := fmt.Sprintf("mechanisms: %s; NTLM exchange (%s) as %q, password correct=%v, same connection=%v, extra headers %q, cookies kept and sent back=%v → upgraded=%v (status %d)\n", strings.Join(mechs, "+"), scheme, user, users[user] == pw, sameConn, rawExtraHdr, rawKeepCookies, resp2.upgraded, resp2.status)
 				if resp2.upgraded {
 					r.Violation("c05-ntlm-reached", "an NTLM exchange that does not prove the password on this connection reached the tunnel handler", rep)
 				} else {
@@ -567,6 +589,13 @@ func runC05(r *Run) {
 		ntlmExchange("NTLM", "alice", "wrong-password", true, false, "ntlm-wrong")
 		ntlmExchange("NTLM", "mallory", "x", true, false, "ntlm-unknown")
 		ntlmExchange("NTLM", "alice", "wonderland", false, false, "ntlm-other-connection")
+		// the same from a client that keeps the cookies the gateway sets and sends them on every connection
+		rawKeepCookies, rawCookieJar = true, nil
+		ntlmExchange("NTLM", "alice", "wonderland", false, false, "ntlm-other-connection-same-cookies")
+		ntlmExchange("NTLM", "alice", "wonderland", true, false, "ntlm-right-with-cookies")
+		ntlmExchange("Negotiate", "bob", "builder", false, false, "negotiate-other-connection-same-cookies")
+		ntlmExchange("NTLM", "alice", "wrong-password", true, false, "ntlm-wrong-with-cookies")
+		rawKeepCookies, rawCookieJar = false, nil
 		// the same with client-controlled address headers equal on both connections
 		for _, hdr := range []string{"X-Forwarded-For: 203.0.113.9\r\n", "X-Forwarded-For: 203.0.113.9, 10.0.0.1\r\nX-Real-Ip: 203.0.113.9\r\n", "Forwarded: for=203.0.113.9\r\n"} {
 			rawExtraHdr = hdr
